@@ -2,6 +2,7 @@
 C14 — long runs use bounded scheduler resources (ledger model).
 -/
 import TickitModel.Core.Ledger
+import TickitModel.Lemmas.LedgerLemmas
 
 namespace Tickit
 
@@ -11,21 +12,25 @@ are back at their baseline, and the bookkeeping entries never exceed two per com
 theorem resources_bounded (ncomp : Nat) (ops : List LOp) (l : Ledger) (h : l.entries ≤ 2 * ncomp) :
     (Ledger.run ncomp l ops).live = l.live ∧ (Ledger.run ncomp l ops).retained = l.retained ∧
     (Ledger.run ncomp l ops).timers = l.timers ∧ (Ledger.run ncomp l ops).entries ≤ 2 * ncomp := by
-  sorry
+  exact Ledger.run_inv ncomp ops l h
 
 /-- inside an operation the excess is bounded by the number of components taking part -/
 theorem peak_bounded (ncomp : Nat) (op : LOp)
     (hd : match op with | .tickSleepWins d _ _ => d ≤ ncomp | .systemTick d => d ≤ ncomp | _ => True) :
     op.peakLive ≤ 2 + ncomp := by
-  sorry
+  cases op <;> simp [LOp.peakLive] at hd ⊢ <;> omega
 
 /-- the behaviour before the repairs grows without bound: `n` system ticks leave `n` tasks -/
 theorem leaky_grows (n : Nat) (l : Ledger) :
     ((List.replicate n (LOp.systemTick 1)).foldl Ledger.applyLeaky l).live = l.live + n := by
-  sorry
+  induction n generalizing l with
+  | zero => simp
+  | succ n ih => simp [List.replicate_succ, ih, Ledger.applyLeaky]; omega
 
 theorem leaky_tcp_grows (n : Nat) (l : Ledger) :
     ((List.replicate n LOp.tcpChunk).foldl Ledger.applyLeaky l).retained = l.retained + n := by
-  sorry
+  induction n generalizing l with
+  | zero => simp
+  | succ n ih => simp [List.replicate_succ, ih, Ledger.applyLeaky]; omega
 
 end Tickit
